@@ -758,14 +758,18 @@ def parse_line(s):
         return (9, s)
 
 
-def run_binary(path, names, timeout=30):
+def run_binary(path, names, timeout=60):
     """Returns {name: (lines, stop)} for the functions that started; stop in 0 Done / 1 ZeroDiv / 2 StepZero /
-    4 other panic / 7 timeout / 8 other exit."""
-    try:
-        p = subprocess.run([path], capture_output=True, text=True, timeout=timeout)
-        rc, out, err = p.returncode, p.stdout, p.stderr
-    except subprocess.TimeoutExpired as e:
-        rc, out, err = "timeout", (e.stdout or b"").decode("utf-8", "replace") if isinstance(e.stdout, bytes) else (e.stdout or ""), ""
+    4 other panic / 7 timeout / 8 other exit.  Every generated function terminates within milliseconds by construction
+    (the model run finished within its fuel); a time-out is retried once with 10 minutes (machine load) before it counts."""
+    rc = None
+    for limit in (timeout, 600):
+        try:
+            p = subprocess.run([path], capture_output=True, text=True, timeout=limit)
+            rc, out, err = p.returncode, p.stdout, p.stderr
+            break
+        except subprocess.TimeoutExpired as e:
+            rc, out, err = "timeout", (e.stdout or b"").decode("utf-8", "replace") if isinstance(e.stdout, bytes) else (e.stdout or ""), ""
     res, cur = {}, None
     order = []
     for l in out.split("\n"):
@@ -986,7 +990,8 @@ def pipeline(chk, binary, cases, known, n_batches, batch_size, n_panic, n_fallba
                 for k in listed:
                     known_hits.setdefault(k, []).append(i)
                 continue
-            fails.append({"case": describe(c), "expected_by_documented_semantics": {"lines": exp_src[0], "stop": STOPS.get(exp_src[1])},
+            fails.append({"case": describe(c), "coq_case": c.coq(), "program": batch_source([("t0", c)]),
+                          "expected_by_documented_semantics": {"lines": exp_src[0], "stop": STOPS.get(exp_src[1])},
                           "actual_binary": {"lines": got[0], "stop": STOPS.get(got[1], got[1])},
                           "rust_side_model": {"lines": exp_rust[0], "stop": STOPS.get(exp_rust[1])},
                           "classes": cls, "why": "the compiled program does not behave as the source says"})
@@ -1065,8 +1070,43 @@ def run(chk):
             chk.violation("proof-broken", {"theorem_or_tie": res["broken"]}, no_input=True)
 
 
+def replay_one(binary, program, coq_case, tag="c01r"):
+    """re-run one recorded function: real front end + emission, real build + run, Coq source semantics, Coq Rust-side model"""
+    out = {}
+    r = emit_real(binary, [program])[0]
+    out["real_check"] = r.get("check")
+    out["real_codegen"] = r.get("gen")
+    out["real_emitted_body"] = " ".join(r.get("fns", {}).get("t0", {}).get("body", []))
+    d = scratch_dir(tag)
+    stem = "%sp%d" % (tag, os.getpid() % 100000)
+    try:
+        ok, msg, path = build_programs(binary, d, [(stem, program)])[stem]
+        if ok:
+            obs, (rc, err) = run_binary(path, ["t0"])
+            out["real_binary"] = {"lines": obs.get("t0", ([], None))[0], "stop": STOPS.get(obs.get("t0", ([], None))[1], obs.get("t0", ([], None))[1]), "exit": rc, "stderr": err}
+        else:
+            out["real_build"] = msg[-2000:]
+    finally:
+        shutil.rmtree(d, ignore_errors=True)
+        clean_gen_target([stem])
+    if coq_case and vlib.coq_build(["C01/Model.vo"])[0]:
+        res = vlib.coq_eval(REQ, MODEL_TYPE, "run_case default_fuel", [coq_case], tag=tag)[0]
+        out["documented_semantics"] = {"lines": res[0], "stop": STOPS.get(res[1])}
+        out["rust_side_model"] = {"status": res[2][0], "lines": res[2][1][0], "stop": STOPS.get(res[2][1][1]), "well_typed": res[2][2]}
+        out["classes"] = {"grouping": res[3][0], "int-fallback": res[3][1]}
+    return out
+
+
 def replay(path):
     data = json.load(open(path))
+    binary = vlib.build_harness("debug")
     for v in data["violations"]:
-        print(json.dumps(v["detail"], indent=1)[:6000])
+        d = v["detail"]
+        if "program" in d:
+            print("== case\n" + d.get("case", ""))
+            print(json.dumps(replay_one(binary, d["program"], d.get("coq_case")), indent=1, default=str))
+            if "expected_by_documented_semantics" in d:
+                print("recorded expected:", json.dumps(d["expected_by_documented_semantics"]), "recorded actual:", json.dumps(d.get("actual_binary")))
+        else:
+            print(json.dumps(d, indent=1)[:6000])
     return 0
